@@ -21,6 +21,7 @@
 package main
 
 import (
+	"sync/atomic"
 	"bytes"
 	"context"
 	"crypto/sha256"
@@ -1590,7 +1591,13 @@ func childMain(repDir, out string, target uint64) int {
 	}()
 	r := litestream.NewReplicaWithClient(nil, file.NewReplicaClient(repDir))
 	r.Client.(*file.ReplicaClient).SetLogger(QuietLogger())
-	err := r.Restore(ctx, litestream.RestoreOptions{OutputPath: out, Follow: true, FollowInterval: 300 * time.Microsecond})
+	opt := litestream.RestoreOptions{OutputPath: out, Follow: true, FollowInterval: 300 * time.Microsecond}
+	if os.Getenv("VERIF_FOLLOW_INTEGRITY") == "1" {
+		// restore -f -integrity-check quick: the option concerns the initial restore; a RESUMED follower repairs a
+		// database torn by a kill inside an apply by re-applying from its sidecar, whatever the option (seed C16g)
+		opt.IntegrityCheck = litestream.IntegrityCheckQuick
+	}
+	err := r.Restore(ctx, opt)
 	if err != nil {
 		fmt.Printf("CLASS %d %v\n", errClass(err), err)
 		return 3
@@ -1637,6 +1644,9 @@ func copyDir(src, dst string) error {
 	})
 }
 
+// childIntegrity: the next child runs Restore(Follow) with IntegrityCheck = quick
+var childIntegrity atomic.Bool
+
 func runChild(self string, straceArgs []string, repDir, out string, target uint64) (code int, killed bool, outp string) {
 	args := []string{"follow", "-child", "-replica", repDir, "-db", out, "-target", strconv.FormatUint(target, 10)}
 	var cmd *exec.Cmd
@@ -1646,6 +1656,9 @@ func runChild(self string, straceArgs []string, repDir, out string, target uint6
 		cmd = exec.Command(self, args...)
 	}
 	cmd.Env = append(os.Environ(), "GOMAXPROCS=2")
+	if childIntegrity.Load() {
+		cmd.Env = append(cmd.Env, "VERIF_FOLLOW_INTEGRITY=1")
+	}
 	b, err := cmd.CombinedOutput()
 	if err == nil {
 		return 0, false, string(b)
@@ -1980,8 +1993,16 @@ func runKillSweep(seed int64, work string, rp *report, budget int, all bool) err
 				}
 				rp.extra["sidecar_vs_content_checks"]++
 			}
-			// restart, converge
+			// restart, converge (every second kill point with -integrity-check quick)
+			// (only when the restart RESUMES: in a fresh restore the option runs its check after the sidecar is
+			// written, and this harness stops the child as soon as the sidecar reaches the target)
+			withCheck := k%2 == 0 && side > 0 && dbErr == nil
+			childIntegrity.Store(withCheck)
 			code, _, o2 := runChild(self, nil, sc.repDir, out, sc.target)
+			childIntegrity.Store(false)
+			if withCheck {
+				rp.extra["restarts_with_integrity_check_option"]++
+			}
 			if code != 0 {
 				if dbErr == nil && side == 0 && strings.Contains(o2, "CLASS 1") {
 					rp.extra["kill_before_first_sidecar"]++
